@@ -1295,6 +1295,7 @@ pub fn run(ctx: &Ctx, findings: &Findings) -> PropReport {
                 max_len: 512,
                 timeout_s: 30,
                 malloc_limit_mb: 1024,
+                detect_leaks: true,
                 confirm: &|bytes: &[u8], obs: &mut Obs| check_tokens(&to_case(bytes), obs),
                 case_of: &|bytes: &[u8]| serde_json::to_value(to_case(bytes)).unwrap(),
             };
